@@ -43,6 +43,13 @@ CHECKS = {
         technique="deterministic simulation: exception (crash-point) injection over generated recording programs, reference = stack-of-lists model compared by identity",
         design="4/C41",
     ),
+    "C64": dict(
+        category="exploration",
+        text="Seeded search over storage histories with I/O fault injection: datasets are created, modified, written (w / w- / a, attribute subsets, overwrite), opened (r / a / w / w- / copy), read into each other, closed and re-opened over a simulated file system that the real h5py + HDF5 library run on unchanged; values are generated from every supported attribute family (scalars, unicode strings, None, arrays incl. 0-d and empty, autograd tensors, nested lists/tuples/dicts, operators and operator arithmetic, sparse matrices, nested datasets). After every operation every attribute of every open handle and of the touched file is compared with a reference file-system model. In 15% of histories one ENOSPC/EIO is delivered at the k-th low-level read/write/flush/truncate of an I/O operation; the faulted file is then exempt, everything else stays under the strict oracle.",
+        note="Trusted: h5py/HDF5 themselves; the reference model's reading of the documented write/read/open semantics; type relaxations are listed in the evidence assumptions. Fault-injecting histories run in a forked child because the HDF5 C library's global state is unreliable after an injected I/O error (a third-party crash there is counted, not reported). No crash-consistency (torn/lost writes) is claimed or injected. Re-assigning an existing attribute is rejected by h5py in this version; either outcome is accepted.",
+        technique="deterministic simulation: simulated file system under the real HDF5 stack, seeded operation histories, ENOSPC/EIO injection at the k-th low-level call, reference = path->{attr: value} model",
+        design="4/C64",
+    ),
 }
 
 NA = {}
